@@ -233,9 +233,17 @@ def generate():
         lines, e = translate_block(b)
         e = e.replace("BELOW_sq1", "(below sq1)").replace("BELOW_sq2", "(below sq2)")
         out.append(lean_def(nm, "(sq1 sq2 : Nat)", lines, e))
-    out.append(time_budget(open(os.path.join(REPO, "src/search/root.rs")).read()))
     out.append("end Rawr.R\n")
     return "\n".join(out)
+
+
+OUT_TIME = os.path.join(VERIF, "lean", "Rawr", "Generated", "RustTime.lean")
+
+
+def generate_time():
+    """kept in a file of its own: a change to root.rs's clock arms must not touch the obligations of the bitboard / ray functions"""
+    return "\n".join(["-- GENERATED by tools/rust2lean.py from /repo on every run. Do not edit.", "namespace Rawr.R", "",
+                      time_budget(open(os.path.join(REPO, "src/search/root.rs")).read()), "end Rawr.R", ""])
 
 
 class ArithParser(Parser):
@@ -332,20 +340,27 @@ def norm(s):
     return re.sub(r"\s+", " ", s).strip()
 
 
-def main():
+def emit(gen, path, name):
+    """-> (ok, message)"""
     try:
-        txt = generate()
+        txt = gen()
     except TranslateError as ex:
-        print("TRANSLATE-ERROR " + str(ex))
-        sys.exit(3)
+        return False, "TRANSLATE-ERROR " + str(ex)
     try:
-        if open(OUT).read() == txt:
-            print("rust2lean: unchanged")
-            return
+        if open(path).read() == txt:
+            return True, f"rust2lean: {name} unchanged"
     except FileNotFoundError:
         pass
-    open(OUT, "w").write(txt)
-    print("rust2lean: RustFns.lean rewritten")
+    open(path, "w").write(txt)
+    return True, f"rust2lean: {name} rewritten"
+
+
+def main():
+    # two independent outputs; exit status: 0 ok, 3 RustFns failed, 4 only RustTime failed (the caller attributes the failure)
+    ok1, m1 = emit(generate, OUT, "RustFns.lean")
+    ok2, m2 = emit(generate_time, OUT_TIME, "RustTime.lean")
+    print(m1 + " ; " + m2)
+    sys.exit(0 if ok1 and ok2 else (3 if not ok1 else 4))
 
 
 if __name__ == "__main__":
